@@ -3,6 +3,7 @@ package main
 import (
 	"fmt"
 	"math/rand/v2"
+	"strings"
 	"time"
 
 	"verif/harness/mon"
@@ -313,9 +314,64 @@ func c25Grid() (family, int) {
 	}}, len(cases)
 }
 
+// c25Batch: N=2..3 concurrent calls; the acknowledgement of the primary call is
+// delivered inside a msgs_ack batch of every layout (ids nobody waits on, ids of
+// other pending / already acknowledged / already completed calls before, between
+// and after it, repeated ids), then the clock runs past every retry deadline.
+func c25Batch() (family, int) {
+	type cse struct {
+		n, primary int
+		prior      string // state of the other calls when the batch arrives
+		shape      string
+	}
+	var cases []cse
+	for _, shape := range ackShapes {
+		for _, n := range []int{2, 3} {
+			for _, prior := range []string{"pending", "acked", "completed"} {
+				for _, primary := range []int{0, n - 1} {
+					cases = append(cases, cse{n, primary, prior, shape})
+				}
+			}
+		}
+	}
+	return family{name: "c25-batch", run: func(idx int, _ []int) *result {
+		cs := cases[idx%len(cases)]
+		cfg := mkCfg(cs.n, false, time.Second, 2, gating{Hooks: map[string]bool{}})
+		b := mkBudget(cfg)
+		for i := 0; i < cs.n; i++ {
+			b.Ack[i], b.Res[i] = 2, 1
+		}
+		b.Travel, b.TravelMs = 8, []int{1000}
+		b.AckShapes = []string{"-", cs.shape}
+		var sc []string
+		for i := 0; i < cs.n; i++ {
+			sc = append(sc, fmt.Sprintf("start:%d", i))
+		}
+		for i := 0; i < cs.n; i++ {
+			if i == cs.primary {
+				continue
+			}
+			switch cs.prior {
+			case "acked":
+				sc = append(sc, fmt.Sprintf("ack:%d", i))
+			case "completed":
+				sc = append(sc, fmt.Sprintf("res:%d", i))
+			}
+		}
+		a := fmt.Sprintf("ack:%d", cs.primary)
+		if cs.shape != "-" {
+			a += ":" + cs.shape
+		}
+		sc = append(sc, a, "travel:1000", "travel:1000", "travel:1000", "travel:1000")
+		return runScript("c25-batch", idx, cfg, b, sc, probes{})
+	}}, len(cases)
+}
+
 func runC25(c *mon.Ctx) {
 	c.Rule("real rpc.Engine with neo fake clock and harness send function recording (msg id, seq no, encoded body, fake time) of every transmission. " +
-		"(a) scripted grid MaxRetries 1..6 x ack/result position (none, after k-th transmission, issued concurrently with the timer) x failing transmission index x clock step (interval, interval/2); " +
+		"(a) scripted grid MaxRetries 1..6 x ack/result position (none, after k-th transmission, issued concurrently with the timer) x failing transmission index x clock step (interval, interval/2), " +
+		"every acked case once as a single-id NotifyAcks and once inside a msgs_ack batch layout; (a2) N=2..3 concurrent calls x 19 batch layouts of 1..6 ids (the pending id first/last/in the middle/repeated, mixed with ids nobody waits on and ids of other pending, acknowledged or completed calls) x state of the other calls; " +
+		"an acknowledgement counts as received when the NotifyAcks call whose batch contains the id returned; empty, nil and unknown-only batches are delivered by the 'wrong' stimulus; " +
 		"(b) PCT-randomized schedules with gated sends, random intervals and travel amounts, lost acks, send failures; (c) free-running. " +
 		"Checker: identical identity of all transmissions of a call, count <= 1+MaxRetries, k-th transmission not before arm time of its timer period + RetryInterval, " +
 		"RetryLimitReachedErr exactly after 1+MaxRetries unacknowledged transmissions, no transmission after retryUntilAck returned (hook rpc.retry.done), " +
@@ -323,8 +379,10 @@ func runC25(c *mon.Ctx) {
 	c.Assume("neo.Time delivers timers on Travel; a resend chosen by select while an ack is delivered but not yet consumed is counted, not asserted")
 	h := newHarvest(c, "C25")
 	grid, n := c25Grid()
+	batch, nb := c25Batch()
 	runFamilies(c, h, []famRun{
 		{grid, n, 1},
+		{batch, nb, 1},
 		{pctFamily(c, "c25-pct", "C25"), c.N(2000, 70000), 1},
 		{freeFamily(c, "c25-free", "C25"), c.N(300, 20000), workersFree()},
 	})
@@ -393,6 +451,8 @@ func c26Insert() (family, int) {
 			b.Ack[i], b.Res[i], b.Cancel[i] = 1, 1, 1
 		}
 		b.Close, b.CancelEarly = 1, true
+		shape := ackShapes[(idx/3)%len(ackShapes)]
+		b.AckShapes = []string{shape}
 		var sc []string
 		for p := 0; p <= len(cs.base); p++ {
 			if p == cs.pos {
@@ -402,7 +462,11 @@ func c26Insert() (family, int) {
 				sc = append(sc, cs.x2)
 			}
 			if p < len(cs.base) {
-				sc = append(sc, cs.base[p])
+				a := cs.base[p]
+				if strings.HasPrefix(a, "ack:") && shape != "-" {
+					a += ":" + shape
+				}
+				sc = append(sc, a)
 			}
 		}
 		if cs.dropGate {
